@@ -408,7 +408,21 @@ fn http_all(ctx: &mut Ctx, db: &Database, r: &mut Rng) {
                         _ => format!("{}2.4.1 (Unix)", s.expsw),
                     };
                     let sw = sw.trim().to_string(); // header values are trimmed by the parser
-                    let hs = synth_headers(s, is_req, mask, &sw, r);
+                    let mut hs = synth_headers(s, is_req, mask, &sw, r);
+                    // requests: the parser takes EVERY Cookie / Referer line out of the header list it hands
+                    // on, so extra such lines (anywhere, any case) must not change the observation
+                    if is_req && k % 5 == 4 {
+                        for _ in 0..r.range(1, 3) {
+                            let line = match r.below(4) {
+                                0 => ("Cookie", "sid=abc123; theme=dark"),
+                                1 => ("cookie", "k=v=w"),
+                                2 => ("Referer", "http://example.com/prev"),
+                                _ => ("COOKIE", "a=1"),
+                            };
+                            let at = r.below(hs.len() as u64 + 1) as usize;
+                            hs.insert(at, (line.0.to_string(), line.1.to_string()));
+                        }
+                    }
                     let sw_name = if is_req { "user-agent" } else { "server" };
                     let sw_seen: Option<String> = hs.iter().find(|(n, _)| n.eq_ignore_ascii_case(sw_name)).map(|(_, v)| v.clone());
                     let msg = render_msg(is_req, version, &hs);
